@@ -113,7 +113,7 @@ structure Cred where
   jwt : Option JwtInfo := none
   claims : List (String × String) := []       -- flattened leaf members of credentialSubject (path, value)
   raw : String := ""                          -- JWT: the compact serialisation (identity of the signing input)
-  caseVariant : Bool := false                 -- the canonicalised document has a member that only differs by case from a member go-did reads
+  caseVariant : Bool := false                 -- signature_verifier.go caseVariantMember: the canonicalised document has a member that only differs by case from a member go-did reads, or an object (any depth) with two member names that only differ by case
   cd : String := ""                           -- driver only: measured digest of the real canonical form (the theorems never read it)
   deriving Repr, DecidableEq, Inhabited
 
